@@ -10,7 +10,7 @@ use std::collections::{BTreeMap, HashMap};
 pub const META: PropertyMeta = PropertyMeta {
     id: "C02",
     level: "exploration",
-    rule: "local: proptest-generated histories (C01 operation set incl. folder-level caller-chosen ids, plus compact_folder) on a backend x cipher x KDF cell; after every step and for every folder three views are decrypted with the folder key and compared with each other and with the model: R = FolderReducer::reduce(log).build, M = the vault behind the account's access point, P = the persisted mirror re-read independently (decoded .vault file / sqlite rows). Time travel: the model snapshot is recorded under the log head after each step; at the end, for every recorded commit still in the log, FolderReducer::new_until_commit(c) must equal a snapshot recorded for hash c. sync: the same R==M==P oracle after merges, auto-merges and force merges received from a second device (sub-check `sync`, engine B). The sync sub-check's offline edits also contain compact_folder, moves between folders, change_folder_password and meta-only updates (favourite flag, tags); shapes of the known C04 findings (concurrent rewrite + password change of a folder; a password change in a history whose logs hold one event hash twice; the step after a FAILED sync while a password change is in flight) are excluded by construction and counted. Non-trivial = the history contains a compaction after a delete, or a merge that replayed >= 2 events, or a force merge. Distinct = distinct history.",
+    rule: "local: proptest-generated histories (C01 operation set incl. folder-level caller-chosen ids, plus compact_folder) on a backend x cipher x KDF cell; after every step and for every folder three views are decrypted with the folder key and compared with each other and with the model: R = FolderReducer::reduce(log).build, M = the vault behind the account's access point, P = the persisted mirror re-read independently (decoded .vault file / sqlite rows). Time travel: the model snapshot is recorded under the log head after each step; at the end, for every recorded commit still in the log, FolderReducer::new_until_commit(c) must equal a snapshot recorded for hash c. sync: the same R==M==P oracle after merges, auto-merges and force merges received from a second device (sub-check `sync`, engine B). The sync sub-check's offline edits also contain compact_folder, moves between folders, change_folder_password and meta-only updates (favourite flag, tags); shapes of the known C04 findings (concurrent rewrite + password change of a folder; any history in which one log holds the same event hash twice; the step after a FAILED sync while a password change is in flight) are excluded by construction and counted. Non-trivial = the history contains a compaction after a delete, or a merge that replayed >= 2 events, or a force merge. Distinct = distinct history.",
     assumptions: &[
         "ciphertexts are not compared (merge re-encrypts); only decrypted name, flags, description, id set and per-id meta/value",
         "FolderReducer::new_until_commit stops at the first occurrence of a commit hash; only recorded log positions that are the first occurrence of their hash are compared (byte-identical events make later positions unreachable by hash)",
